@@ -148,17 +148,39 @@ def strip_comments(src):
     return "".join(out)
 
 
-def audit_sources():
-    """grep for sorry/admit/axiom/native_decide/... outside comments in every Lean source of the project"""
+def import_closure(roots):
+    """Lean source files of this project transitively imported by the given modules (e.g. Pyrealb.Props.C20)"""
+    seen, todo = {}, list(roots)
+    while todo:
+        m = todo.pop()
+        if m in seen or not m.startswith(("Pyrealb", "Drv")):
+            continue
+        path = os.path.join(LEAN, *m.split(".")) + ".lean"
+        if not os.path.exists(path):
+            continue
+        seen[m] = path
+        for l in open(path, encoding="utf-8"):
+            mm = re.match(r"\s*(?:public\s+)?import\s+(\S+)", l)
+            if mm:
+                todo.append(mm.group(1))
+    return seen
+
+
+def audit_sources(roots=None):
+    """grep for sorry/admit/axiom/native_decide/... outside comments in the Lean sources the property depends on
+    (its Props and Audit modules and everything they import; the whole project when roots is None)"""
     hits = []
-    for root, _, files in os.walk(os.path.join(LEAN, "Pyrealb")):
-        for fn in files:
-            if fn.endswith(".lean"):
-                p = os.path.join(root, fn)
-                src = strip_comments(open(p, encoding="utf-8").read())
-                for ln, l in enumerate(src.split("\n"), 1):
-                    if FORBIDDEN.search(l):
-                        hits.append("%s:%d: %s" % (os.path.relpath(p, LEAN), ln, l.strip()[:120]))
+    if roots is None:
+        paths = []
+        for root, _, files in os.walk(os.path.join(LEAN, "Pyrealb")):
+            paths += [os.path.join(root, fn) for fn in files if fn.endswith(".lean")]
+    else:
+        paths = list(import_closure(roots).values())
+    for p in sorted(paths):
+        src = strip_comments(open(p, encoding="utf-8").read())
+        for ln, l in enumerate(src.split("\n"), 1):
+            if FORBIDDEN.search(l):
+                hits.append("%s:%d: %s" % (os.path.relpath(p, LEAN), ln, l.strip()[:120]))
     return hits
 
 
@@ -315,7 +337,8 @@ def main_check(prop, tier, seed, module, replay=None):
         axioms, bad_axioms = ({}, [])
         if build_ok:
             axioms, bad_axioms = audit_axioms(prop)
-        src_hits = audit_sources()
+        src_hits = audit_sources(["Pyrealb.Props." + prop, "Pyrealb.Audit." + prop] + meta.get("extra_modules", []))
+        ctx.notes["lean_modules_audited"] = len(import_closure(["Pyrealb.Props." + prop, "Pyrealb.Audit." + prop] + meta.get("extra_modules", [])))
         ctx.theorems = axioms
         for b in bad_axioms:
             ctx.proof_failures.append({"theorem": b, "msg": "axiom audit"})
